@@ -151,3 +151,40 @@ Definition session_matches (c : Z * Z * list (Z * res (list Z * Z * error))) : b
   let '(len, size, obs) := c in
   forallb (fun x : Z * res (list Z * Z * error) =>
              let '(n, o) := x in eqb_page (page (zseq 0 (Z.to_nat len)) size n) o) obs.
+
+(* ---- GET /api/v2/transactions: page / limit parameter text (bytes) *)
+(* strconv.ParseUint(s, 10, 64): one or more decimal digits, value < 2^64 *)
+Definition is_dec_digit (c : Z) : bool := (48 <=? c) && (c <=? 57).
+Definition parse_u64 (s : list Z) : option Z :=
+  match s with
+  | [] => None
+  | _ =>
+      if forallb is_dec_digit s then
+        let v := fold_left (fun a c => a * 10 + (c - 48)) s 0 in
+        if v <? 2 ^ 64 then Some v else None
+      else None
+  end.
+Definition param_or (dflt : Z) (s : list Z) : option Z :=
+  match s with [] => Some dflt | _ => parse_u64 s end.
+
+(* observed = (HTTP status, page size and page number handed to the gateway, 0 0 if not called) *)
+Definition apipage_prop (c : list Z * list Z * (Z * Z * Z)) : bool :=
+  let '(ptxt, ltxt, (status, gsize, gpage)) := c in
+  match param_or 1 ptxt, param_or 10 ltxt with
+  | Some pn, Some sz =>
+      match request_error sz pn with
+      | None => (status =? 200) && (gsize =? sz) && (gpage =? pn)
+      | Some _ => (status =? 400) && (gsize =? 0) && (gpage =? 0)
+      end
+  | _, _ => (status =? 400) && (gsize =? 0) && (gpage =? 0)
+  end.
+Definition apipage_model (c : list Z * list Z * (Z * Z * Z)) : bool :=
+  let '(ptxt, ltxt, (status, gsize, gpage)) := c in
+  match param_or 1 ptxt, param_or 10 ltxt with
+  | Some pn, Some sz =>
+      match NewPageIndex sz pn with
+      | Val (Some (s, p), None) => (status =? 200) && (gsize =? s) && (gpage =? p)
+      | _ => (status =? 400) && (gsize =? 0) && (gpage =? 0)
+      end
+  | _, _ => (status =? 400) && (gsize =? 0) && (gpage =? 0)
+  end.
